@@ -115,8 +115,8 @@ def finish(prop, tier, seed, plan, units, results, t0):
         solver_s += r.solver_s
         sel = getattr(u, "select", None)
         for o in r.obligations:
-            if sel is not None and not re.search(sel, o.name):
-                continue
+            if sel is not None and not re.search(sel, o.name) and o.kind != "timeout":
+                continue  # (a unit that was not decided in time is never filtered away)
             obligations.append(o)
             by_backend[o.backend if o.backend in by_backend else "z3"] = by_backend.get(o.backend, 0) + 1
         for x in r.unsupported:
@@ -127,6 +127,16 @@ def finish(prop, tier, seed, plan, units, results, t0):
         callees.update(r.callees)
         unit_summ.append({"unit": u.name, "kind": r.kind, "obligations": len(r.obligations), "paths": r.paths,
                           "wall_s": round(r.wall, 2), "outcomes": r.outcomes})
+    if prop != "C13":
+        # frame scan as discharge of A-GLOBAL: only the functions this property's proofs go through (under contract or
+        # inlined callees) are this property's business
+        cone = {f.split("[")[0] for f in functions if isinstance(f, str)}
+        for c in callees:
+            for x in (c if isinstance(c, tuple) else (c,)):
+                if isinstance(x, str) and x.startswith("pyubx2."):
+                    cone.add(x.split("[")[0])
+        obligations = [o for o in obligations if not o.unit.endswith("/frame-scan")
+                       or (o.inputs or {}).get("function") in cone]
     failed = [o for o in obligations if o.status == "sat"]
     unknown = [o for o in obligations if o.status not in ("sat", "unsat")]
     discharged = [o for o in obligations if o.status == "unsat"]
@@ -200,12 +210,14 @@ def finish(prop, tier, seed, plan, units, results, t0):
             vacuity.append(f"unit {u.name} generated no obligation")
 
     # -- replay violations
-    rdir = os.path.join(VERIF, "replays", prop)
+    rdir = os.path.join(os.environ.get("PVC_REPLAY_DIR") or os.path.join(VERIF, "replays"), prop)
     vio_lines = []
     if violations:
         os.makedirs(rdir, exist_ok=True)
         seen = set()
         MAX_REPLAYS = 24  # further violations of the same run are counted in the evidence, not replayed one by one
+        # failures that carry a concrete input (bounded / ground evaluations on the real code) first
+        violations = sorted(violations, key=lambda o: 0 if o.kind in ("bounded", "ground") else 1)
         for o in violations:
             if o.name in seen:
                 continue
@@ -215,7 +227,10 @@ def finish(prop, tier, seed, plan, units, results, t0):
             info = rp.replay_obligation(prop, o, plan)
             if getattr(o, "unconfirmed", False) and not info.get("reproduced"):
                 # refuted only by the second back end (no model) and not confirmed on the real code: undecided
-                undecided.append(f"{o.name}: cvc5 reports a counter-model but none could be replayed on the real code")
+                if o.kind == "ground":
+                    undecided.append(f"{o.name}: {o.detail[:300]} - no concrete failing history found on the real code")
+                else:
+                    undecided.append(f"{o.name}: cvc5 reports a counter-model but none could be replayed on the real code")
                 continue
             path = os.path.join(rdir, safe_name(o.name) + ".json")
             with open(path, "w") as f:
